@@ -1,8 +1,6 @@
-import os as _os
-_K = {"VERIF_KNOWN": _os.environ.get("C31_KNOWN", "/tmp/c31-known.jsonl")}  # TEMPORARY (development only)
 PROP = dict(
     level="fault_enumeration",
-    design_ref="DESIGN.md §3 C31, §4 F-C31-1",
+    design_ref="DESIGN.md §3 C31, §4 F-C31-1 (fixed in 2de3084)",
     technique="scripted loopback HTTP server (one generated behaviour per request = the fault sequence) x generated pre-existing .partial files "
               "against the real Store.Download; invariant over the final files (digest of whatever is at the target path)",
     level_text="Store.Download runs against an httptest server that answers each incoming request with the next step of a generated script: "
@@ -14,13 +12,13 @@ PROP = dict(
                "fetched through the cache the first call filled. After every call: nil => a regular file of the declared size and the expected "
                "SHA3-384 at target; error => nothing at target; a .partial only after an error with LeavePartialOnError. "
                "The enum engine covers every script up to length 2 (quick) / 3 (thorough) over 17 canonical behaviours x 7 partial files x "
-               "LeavePartialOnError x {honest, repeat}: complete within that bound; the random engine samples beyond it (scripts up to 8 steps, "
+               "LeavePartialOnError, followed by a correct server (and, for scripts below the bound, by the last step for ever): complete within that bound; the random engine samples beyond it (scripts up to 8 steps, "
                "content up to 64 KiB, retry budgets 2-6, cache modes).",
     level_note="Retry strategy mocked to immediate with a pure attempt-count limit, speed monitor disabled, deltas disabled, no authentication, "
                "no rate limit. Every oracle clause is an implication from the returned error to the final files, so timing (a reset racing the "
                "delivery of bytes, a slow machine) changes which branch is explored, never the verdict. Trusts the kernel's loopback TCP and Go's "
                "net/http client to surface the scripted faults as io.ErrUnexpectedEOF / ECONNRESET / EOF.",
-    rule="enum: all scripts of length <= L over the 17-step alphabet x 7 partial files x LeavePartialOnError x exhaustion behaviour, content fixed "
+    rule="enum: all scripts of length <= L (2 quick, 3 thorough) over the 17-step alphabet x 7 partial files x LeavePartialOnError (x exhaustion behaviour below L), content fixed "
          "(24 bytes); random: rapid draws size, seed, partial (length, flipped byte), 1-8 steps, exhaustion behaviour, retry budget, options, cache "
          "mode. Non-trivial = at least 2 requests were served during the first call (a retry, redirect or hash-retry happened) or the partial "
          "file was non-empty; distinct by hash of the case; class floors: retry 50 %, non-empty partial 40 %, partial longer than the final body 5 %.",
@@ -28,7 +26,7 @@ PROP = dict(
                  "the download cache, when on, holds only entries placed by Download itself or an honest entry for the digest",
                  "a stale .partial next to a call satisfied from the download cache is not judged (the statement is silent on it)"],
     engines=[
-        gt("enum", "store", "TestVerifC31Enum", dict(shards=3), dict(shards=16), rapid=False, env=_K),
-        gt("random", "store", "TestVerifC31Random", dict(checks=1000, shards=2), dict(checks=30000, shards=16), env=_K),
+        gt("enum", "store", "TestVerifC31Enum", dict(shards=3), dict(shards=16), rapid=False),
+        gt("random", "store", "TestVerifC31Random", dict(checks=1000, shards=2), dict(checks=12000, shards=16)),
     ],
 )
